@@ -1,11 +1,105 @@
-(* C07 - statement file (being filled in) *)
+(* C07 - MAC-command encoding is lossless-or-error; command streams are
+   self-delimiting; proprietary registration histories.  Statement file. *)
 From Coq Require Import List NArith ZArith Bool.
-From LW Require Import Base.Outcome Base.Bytes Mac.Commands Mac.Spec Mac.Stream Mac.RegistryProofs.
+From LW Require Import Base.Outcome Base.Bytes Mac.Commands Mac.Spec Mac.Stream
+     Mac.RegistryProofs Mac.DecProofs Mac.EncProofs Mac.StreamProofs Mac.RegOkProofs.
 From LWGen Require Import RegistryGen.
 Import ListNotations.
 Open Scope N_scope.
 
+(* LOSSLESS OR ERROR over the full Go domain of every field (uint8, uint32, int8,
+   int, time.Duration): whatever the encoder accepts decodes back to the same value
+   to wire resolution (DeviceTimeAns: 1/256 s).  The one exception is explicit:
+   finding C07-2, NewChannelReq frequencies in [1.2 GHz, 2.4 GHz) - of which the
+   encoder accepts those below 2^24 * 100 Hz - collide with the 200 Hz coding. *)
+Theorem C07_lossless_or_error : forall v,
+  wf_go v = true ->
+  enc v = Err \/
+  (exists bs, enc v = Ok bs /\ dec (kind_of v) bs = Ok (wire_resolution v)) \/
+  newch_ambiguous v = true.
+Proof.
+  intros v Hwf. destruct (newch_ambiguous v) eqn:Ha; [right; right; reflexivity|].
+  destruct (enc v) as [bs| | |] eqn:E.
+  - right. left. exists bs. split; [reflexivity|]. exact (roundtrip v bs Hwf E Ha).
+  - left. reflexivity.
+  - exfalso. destruct v; cbn [enc enc_redundancy enc_dlsettings enc_version] in E;
+      unfold enc_redundancy, enc_dlsettings, enc_version in E;
+      repeat match type of E with
+             | (if ?c then _ else _) = _ => destruct c
+             | bind (if ?c then _ else _) _ = _ => destruct c; cbn [bind] in E
+             end; discriminate.
+  - exfalso. destruct v; cbn [enc enc_redundancy enc_dlsettings enc_version] in E;
+      unfold enc_redundancy, enc_dlsettings, enc_version in E;
+      repeat match type of E with
+             | (if ?c then _ else _) = _ => destruct c
+             | bind (if ?c then _ else _) _ = _ => destruct c; cbn [bind] in E
+             end; discriminate.
+Qed.
+Print Assumptions C07_lossless_or_error.
+
+(* the exception is real on today's code: literal statement refuted *)
+Theorem C07_newchannel_refuted :
+  exists v bs, wf_go v = true /\ enc v = Ok bs /\ dec (kind_of v) bs <> Ok (wire_resolution v).
+Proof.
+  exists (PNewChannelReq 3 1300000000 5 0), [3; 0x40; 0x5d; 0xc6; 0x50].
+  split; [reflexivity|]. split; [vm_compute; reflexivity|]. vm_compute. discriminate.
+Qed.
+Print Assumptions C07_newchannel_refuted.
+
+(* every value within the specification's field ranges is accepted *)
+Theorem C07_in_range_accepted : forall v,
+  wf_go v = true -> spec_in_range v = true -> is_ok (enc v) = true.
+Proof. exact in_range_accepted. Qed.
+Print Assumptions C07_in_range_accepted.
+
+(* registered size = encoded length, for the live registry *)
 Theorem C07_registry_sizes : forall up cid sz k,
   reg_lookup builtin_registry up cid = Some (sz, k) -> sz = kind_size k.
 Proof. intros up cid sz k H. exact (proj2 (proj2 (registry_complete up cid sz k H))). Qed.
 Print Assumptions C07_registry_sizes.
+
+Theorem C07_encoded_length : forall v bs,
+  wf_go v = true -> kind_of v <> KProprietary -> enc v = Ok bs ->
+  Z.of_nat (length bs) = kind_size (kind_of v).
+Proof. exact enc_length. Qed.
+Print Assumptions C07_encoded_length.
+
+(* SELF-DELIMITING STREAMS: under any history h of RegisterProprietaryMACCommand
+   calls, any sequence of commands (built-in with an accepted payload of the
+   registered kind, proprietary with exactly the registered number of bytes, or a
+   payload-less CID) of ANY length - in particular up to the 15-byte FOpts and
+   242-byte FRMPayload limits - concatenated, decodes into exactly that sequence
+   for its direction. *)
+Theorem C07_stream : forall h up cmds bs,
+  Forall (cmd_ok (register_all builtin_registry h) up) cmds ->
+  encode_cmds cmds = Ok bs ->
+  decode_stream (register_all builtin_registry h) up bs = Ok (map item_resolution cmds).
+Proof. intros h up cmds bs. exact (stream_roundtrip _ up cmds bs (reg_ok_history h)). Qed.
+Print Assumptions C07_stream.
+
+(* REGISTRATION HISTORIES: after any history, a (direction, CID) maps to the last
+   registration with a positive size in that direction if the CID is proprietary
+   (128..255), and to its previous entry otherwise *)
+Theorem C07_register_history : forall h r up cid,
+  reg_lookup (register_all r h) up cid = spec_entry h up cid (reg_lookup r up cid).
+Proof. exact register_history. Qed.
+Print Assumptions C07_register_history.
+
+Theorem C07_builtin_unchanged : forall h r up cid, cid < 128 ->
+  reg_lookup (register_all r h) up cid = reg_lookup r up cid.
+Proof. exact register_builtin_unchanged. Qed.
+Print Assumptions C07_builtin_unchanged.
+
+Theorem C07_other_direction_untouched : forall h r up cid,
+  Forall (fun x => fst (fst x) = negb up) h ->
+  reg_lookup (register_all r h) up cid = reg_lookup r up cid.
+Proof. exact register_other_direction. Qed.
+Print Assumptions C07_other_direction_untouched.
+
+(* the stream decoder never panics and never runs out of its |input|+1 iterations,
+   for any bytes, under any reachable registry (see also C09) *)
+Example C07_example_stream :
+  decode_stream builtin_registry false [0x03; 0x53; 0x03; 0x00; 0x61; 0x06; 0x0d; 1; 2; 3; 4; 5]
+  = Ok [IMac 3 (Some (PLinkADRReq 5 3 (true :: true :: repeat false 14) 6 1)); IMac 6 None;
+        IMac 13 (Some (PDeviceTimeAns (67305985 * 1000000000 + 5 * 3906250)))].
+Proof. vm_compute. reflexivity. Qed.
